@@ -136,6 +136,80 @@ def run_http_case(case):
     return out, not ok_expected
 
 
+def run_http_surplus_case(case):
+    """A kept-alive connection: the peer answers the first request and sends one more response nobody asked for (in the same
+    segment or a little later); it refuses the second request. The surplus response must not be taken for the answer to the
+    second message."""
+    count = [0]
+
+    def handle(sock, addr):
+        try:
+            f = sock.makefile('rb')
+            while True:
+                line = f.readline()
+                if not line:
+                    return
+                n = 0
+                while True:
+                    h = f.readline()
+                    if h in (b'\r\n', b'\n', b''):
+                        break
+                    if h.lower().startswith(b'content-length:'):
+                        n = int(h.split(b':')[1])
+                f.read(n)
+                count[0] += 1
+                ok = b'HTTP/1.1 200 OK\r\nX-Smtp-Reply: 250; message="2.6.0 accepted"\r\nContent-Length: 0\r\n\r\n'
+                if count[0] == 1:
+                    if case['surplus'] == 'same-segment':
+                        sock.sendall(ok + ok)
+                    else:
+                        sock.sendall(ok)
+                        gevent.sleep(0.02)
+                        sock.sendall(ok)
+                else:
+                    sock.sendall(b'HTTP/1.1 500 Server Error\r\nX-Smtp-Reply: 550; message="5.1.1 no such user"\r\nContent-Length: 0\r\n\r\n')
+        except (OSError, ValueError):
+            pass
+        finally:
+            try:
+                sock.close()
+            except Exception:
+                pass
+    server = StreamServer(('127.0.0.1', 0), handle)
+    server.start()
+    relay = HttpRelay('http://127.0.0.1:%d/deliver' % server.server_port, ehlo_as='relay.example', timeout=5.0, idle_timeout=5.0, pool_size=1)
+    desc = repr(case)
+    out = []
+    try:
+        results = []
+        for k in range(2):
+            env = main.make_env(1, 'h%d' % k)
+            got = AsyncResult()
+
+            def go(env=env, got=got):
+                try:
+                    got.set(relay.attempt(env, 0))
+                except BaseException as e:
+                    got.set(main.Raised(e))
+            g = gevent.spawn(go)
+            g.join(timeout=8)
+            if not got.ready():
+                g.kill(block=False)
+                return [('C11:attempt-never-returns:http', '%s: attempt #%d never returned' % (desc, k))], True
+            verdicts, bad = main.classify_result(got.get(), list(env.recipients))
+            if bad:
+                return [('C11:malformed-result:http', '%s: attempt #%d: %s' % (desc, k, bad))], True
+            results.append(list(verdicts.values())[0])
+            gevent.sleep(0.06)
+        if results[1] == 'ok':
+            out.append(('C11:success-reported-without-acceptance:http-surplus-response',
+                        '%s: the second message was answered 500 / 550 by the peer and is reported delivered' % desc))
+    finally:
+        kill_relay(relay)
+        server.stop()
+    return out, True
+
+
 def http_table():
     for status, reason in HTTP_STATUS:
         for header in HTTP_HEADERS:
@@ -272,6 +346,12 @@ def run(ctx, index):
             continue
         f, nt = run_http_case(case)
         ctx.record(repr(case), nt, labels=['http'], case=dict(case, family='http'), failures=f)
+    for surplus in ('same-segment', 'later'):
+        index += 1
+        if ctx.mine(index):
+            case = {'surplus': surplus}
+            f, nt = run_http_surplus_case(case)
+            ctx.record(repr(case), nt, labels=['http-surplus'], case=dict(case, family='http-surplus'), failures=f)
     for case in mx_table():
         index += 1
         if not ctx.mine(index):
@@ -287,6 +367,10 @@ def replay(fam, case):
         case.setdefault('reason', 'X')
         f, _ = run_http_case(case)
         return f
+    if fam == 'http-surplus':
+        if case.get('surplus') not in ('same-segment', 'later'):
+            return []
+        return run_http_surplus_case({'surplus': case['surplus']})[0]
     if fam == 'mx':
         if not isinstance(case.get('rcpt'), str) or not isinstance(case.get('answers'), dict):
             return []
